@@ -63,6 +63,15 @@ class QCow2(AlignedStream):
         if self.header.cluster_bits < c_qcow2.MIN_CLUSTER_BITS or self.header.cluster_bits > c_qcow2.MAX_CLUSTER_BITS:
             raise InvalidHeaderError(f"Unsupported cluster size: 2**{self.header.cluster_bits}")
 
+        if self.header.version == 2:
+            # Version 2 headers end at byte 72, the version 3 fields do not exist: use their documented defaults
+            self.header.incompatible_features = 0
+            self.header.compatible_features = 0
+            self.header.autoclear_features = 0
+            self.header.refcount_order = 4
+            self.header.header_length = 72
+            self.header.compression_type = c_qcow2.QCOW2_COMPRESSION_TYPE_ZLIB
+
         self.cluster_bits = self.header.cluster_bits
         self.cluster_size = 1 << self.cluster_bits
         self.subclusters_per_cluster = c_qcow2.QCOW_EXTL2_SUBCLUSTERS_PER_CLUSTER if self.has_subclusters else 1
